@@ -23,6 +23,7 @@
 #include <assert.h>
 #include <ctype.h>
 #include <errno.h>
+#include <limits.h>
 #include <stdarg.h>
 #include <stdbool.h>
 #include <stdlib.h>
@@ -779,6 +780,12 @@ static int load_touchstone1(ts_parser_state_t *tpsp)
 	     * Validate and load the frequency.
 	     */
 	    findex = vdp->vd_frequencies;
+	    if (!(tpsp->tps_value_vector[0] >= 0.0)) {
+		_vnadata_error(vdip, VNAERR_SYNTAX, "%s (line %d) error: "
+			"frequency cannot be negative",
+			tpsp->tps_filename, tpsp->tps_line);
+		return -1;
+	    }
 	    if (findex != 0 &&
 		    tpsp->tps_frequency_multiplier *
 		    tpsp->tps_value_vector[0] <= vnadata_get_frequency(vdp,
@@ -871,6 +878,12 @@ static int load_touchstone1(ts_parser_state_t *tpsp)
 	for (;;) {
 	    /* first row */
 	    findex = vdp->vd_frequencies;
+	    if (!(tpsp->tps_value_vector[0] >= 0.0)) {
+		_vnadata_error(vdip, VNAERR_SYNTAX, "%s (line %d) error: "
+			"frequency cannot be negative",
+			tpsp->tps_filename, tpsp->tps_line);
+		return -1;
+	    }
 	    if (findex != 0 &&
 		    tpsp->tps_frequency_multiplier *
 		    tpsp->tps_value_vector[0] <= vnadata_get_frequency(vdp,
@@ -1235,6 +1248,13 @@ int _vnadata_load_touchstone(vnadata_internal_t *vdip, FILE *fp,
 		goto out;
 	    }
 	    tps.tps_ports = tps.u.tps_int;
+	    if (tps.tps_ports != 0 &&
+		    tps.tps_ports > INT_MAX / 2 / tps.tps_ports) {
+		_vnadata_error(vdip, VNAERR_SYNTAX, "%s (line %d) error: "
+			"[Number of Ports] %d is too large",
+		    tps.tps_filename, tps.tps_line, tps.tps_ports);
+		goto out;
+	    }
 	    if (tps.tps_ports != 2 &&
 		    (tps.tps_parameter_type == VPT_G ||
 		     tps.tps_parameter_type == VPT_H)) {
@@ -1505,6 +1525,12 @@ int _vnadata_load_touchstone(vnadata_internal_t *vdip, FILE *fp,
 	if (tps.tps_token != T_DOUBLE) {
 	    _vnadata_error(vdip, VNAERR_SYNTAX, "%s (line %d) error: "
 		    "expected frequency",
+		    tps.tps_filename, tps.tps_line);
+	    goto out;
+	}
+	if (!(tps.u.tps_double >= 0.0)) {
+	    _vnadata_error(vdip, VNAERR_SYNTAX, "%s (line %d) error: "
+		    "frequency cannot be negative",
 		    tps.tps_filename, tps.tps_line);
 	    goto out;
 	}
